@@ -156,6 +156,7 @@ impl OAuth2MsgActor {
 
                 // Use configured default role
                 let role = self.oauth2_config.oauth2_user_default_role.clone();
+                let mut roles = vec![role.clone()];
                 let mut namespace_privilege = None;
 
                 // Initialize user
@@ -174,12 +175,25 @@ impl OAuth2MsgActor {
                         })
                         .await
                     {
+                        // the user exists already: what the administrator stored for it
+                        // (disabled, roles) wins over the default role
+                        if user_dto.enable == Some(false) {
+                            return Err(anyhow::anyhow!("user {} is disabled", &user_name));
+                        }
+                        if let Some(stored_roles) = user_dto.roles {
+                            if !stored_roles.is_empty() {
+                                roles = stored_roles;
+                            }
+                        }
                         namespace_privilege = user_dto.namespace_privilege;
                     }
                 }
 
-                let meta =
-                    crate::oauth2::model::OAuth2UserMeta::new(user_name, role, namespace_privilege);
+                let meta = crate::oauth2::model::OAuth2UserMeta::new(
+                    user_name,
+                    roles,
+                    namespace_privilege,
+                );
                 Ok(OAuth2MsgResult::UserMeta(meta))
             }
         }
